@@ -565,15 +565,20 @@ func TestC05_qr_algorithm(t *testing.T) {
 		if symmetric {
 			args = append(args, qrAlgorithm.Symmetric{Value: true})
 		}
-		// the default deflation threshold (1e-18) is below the rounding level; the documented
-		// Epsilon option is set to the unit round-off in most cases (termination with the default is C20's)
-		if eps := rapid.SampledFrom([]float64{1.11e-16, 1.11e-16, 1.11e-16, 1e-14, 0}).Draw(t, "epsilon"); eps > 0 {
+		// deflation threshold: the default (machine epsilon since the fix of the unreachable 1e-18) or
+		// an explicit value not below the machine epsilon (a smaller threshold cannot be reached:
+		// off-diagonal elements stagnate at rounding level; the routine then reports non-convergence)
+		if eps := rapid.SampledFrom([]float64{2.22e-16, 2.22e-16, 1e-14, 0, 0}).Draw(t, "epsilon"); eps > 0 {
 			args = append(args, qrAlgorithm.Epsilon{Value: eps})
 			fc.c.Classf("epsilon=%g", eps)
 		} else {
 			fc.c.Class("epsilon=default")
 		}
 		if !fc.run(func() { h, u, err = qrAlgorithm.Run(am, args...) }) {
+			return
+		}
+		if err != nil && err.Error() == "QR algorithm did not converge" && fc.c.Known("C05/francis-iteration-stalls-on-some-matrices-with-repeated-eigenvalues") {
+			fc.c.End()
 			return
 		}
 		if err != nil {
@@ -651,13 +656,17 @@ func TestC05_eigensystem(t *testing.T) {
 		if symmetric {
 			args = append(args, eigensystem.Symmetric{Value: true})
 		}
-		if eps := rapid.SampledFrom([]float64{1.11e-16, 1.11e-16, 1.11e-16, 1e-14, 0}).Draw(t, "epsilon"); eps > 0 {
+		if eps := rapid.SampledFrom([]float64{2.22e-16, 2.22e-16, 1e-14, 0, 0}).Draw(t, "epsilon"); eps > 0 {
 			args = append(args, qrAlgorithm.Epsilon{Value: eps})
 			fc.c.Classf("epsilon=%g", eps)
 		} else {
 			fc.c.Class("epsilon=default")
 		}
 		if !fc.run(func() { ev, evec, err = eigensystem.Run(am, args...) }) {
+			return
+		}
+		if err != nil && err.Error() == "QR algorithm did not converge" && fc.c.Known("C05/francis-iteration-stalls-on-some-matrices-with-repeated-eigenvalues") {
+			fc.c.End()
 			return
 		}
 		if err != nil {
@@ -979,4 +988,80 @@ func TestKF_eigensystem_permutation(t *testing.T) {
 func TestKF_eigensystem_1x1(t *testing.T) {
 	p, _ := guarded(func() { eigensystem.Run(NewDenseFloat64Matrix([]float64{2}, 1, 1)) })
 	obs.KFStatus("C05/eigensystem-1x1-panics", p != "", p)
+}
+
+func TestKF_svd_rank_deficient_stalls(t *testing.T) {
+	a := NewDenseFloat64Matrix([]float64{-0.8320518186308641, 1.9549534301461844, -0.688845421864278, 1.6184817942348677, -0.030645578236125792, 0.07200354226748763, 1.6328967272064285, -3.836584436747571}, 4, 2)
+	done := make(chan error, 1)
+	go func() {
+		defer func() {
+			if r := recover(); r != nil {
+				done <- fmt.Errorf("panic: %v", r)
+			}
+		}()
+		_, _, _, err := svd.Run(a)
+		done <- err
+	}()
+	select {
+	case err := <-done:
+		obs.KFStatus("C05/svd-stalls-on-rank-deficient-matrices", err != nil, fmt.Sprint(err))
+	case <-time.After(5 * time.Second):
+		obs.KFStatus("C05/svd-stalls-on-rank-deficient-matrices", true, "no result within 5 s")
+	}
+}
+
+func TestKF_francis_stall(t *testing.T) {
+	a := NewDenseFloat64Matrix([]float64{
+		1.0282257230951661, 0.016131514985360054, -0.27230887676711535, 0.02634566159494351, 0.1023078132927626, -0.00020699815283925418,
+		0.016131514985360054, 1.0403883866143562, 0.017505284205601827, -0.3532667326845578, 0.0021970189548504594, -0.3160341291350081,
+		-0.27230887676711535, 0.017505284205601827, 0.21175507080329317, 0.014649838434751218, -0.03387612236055227, -0.06490578757223413,
+		0.02634566159494351, -0.3532667326845578, 0.014649838434751218, 0.5101551942989244, 0.015649909772370765, -0.3328115142161956,
+		0.1023078132927626, 0.0021970189548504594, -0.03387612236055227, 0.015649909772370765, 0.2643528749557994, -0.02774182841006595,
+		-0.00020699815283925418, -0.3160341291350081, -0.06490578757223413, -0.3328115142161956, -0.02774182841006595, 1.0701227502324613}, 6, 6)
+	done := make(chan error, 1)
+	go func() {
+		defer func() {
+			if r := recover(); r != nil {
+				done <- fmt.Errorf("panic: %v", r)
+			}
+		}()
+		_, _, err := eigensystem.Run(a, eigensystem.Symmetric{Value: true})
+		done <- err
+	}()
+	select {
+	case err := <-done:
+		obs.KFStatus("C05/francis-iteration-stalls-on-some-matrices-with-repeated-eigenvalues", err != nil, fmt.Sprint(err))
+	case <-time.After(5 * time.Second):
+		obs.KFStatus("C05/francis-iteration-stalls-on-some-matrices-with-repeated-eigenvalues", true, "no result within 5 s")
+	}
+}
+
+func eigStalls(vals []float64, n int) (bool, string) {
+	a := NewDenseFloat64Matrix(vals, n, n)
+	done := make(chan error, 1)
+	go func() {
+		defer func() {
+			if r := recover(); r != nil {
+				done <- fmt.Errorf("panic: %v", r)
+			}
+		}()
+		_, _, err := eigensystem.Run(a, eigensystem.Symmetric{Value: true})
+		done <- err
+	}()
+	select {
+	case err := <-done:
+		return err != nil, fmt.Sprint(err)
+	case <-time.After(5 * time.Second):
+		return true, "no result within 5 s"
+	}
+}
+
+func TestKF_qr_repeated_pair(t *testing.T) {
+	bad, why := eigStalls([]float64{3.3748125062499166, 0.01814396135487705, 0.0036323728139712923, 0.003019629380069506, 0.01814396135487705, 1.9127601229048152, -1.218649235919977, -1.0130758116648262, 0.0036323728139712923, -1.218649235919977, 7.756029663658165, -0.20281508347646904, 0.003019629380069506, -1.0130758116648262, -0.20281508347646904, 7.8313977071871035}, 4)
+	obs.KFStatus("C05/qr-2x2-block-with-coinciding-eigenvalues-never-reduces", bad, why)
+}
+
+func TestKF_qr_triple_eigenvalue(t *testing.T) {
+	bad, why := eigStalls([]float64{4.585036969770679, -0.11081697422556466, 0, 0.8476307753367267, -0.0705895204241806, -0.11081697422556466, 4.5750134041499075, 0, 0.5003932514761829, -0.7183445476789435, 0, 0, 0.125, 0, 0, 0.8476307753367267, 0.5003932514761829, 0, 0.3472343582918309, -0.09784916797545695, -0.0705895204241806, -0.7183445476789435, 0, -0.09784916797545695, 0.24271526778758343}, 5)
+	obs.KFStatus("C05/qr-subdiagonal-stagnates-above-the-neighbour-relative-threshold", bad, why)
 }
